@@ -80,7 +80,7 @@ type blankTarget struct {
 	bytesArg bool     // the parameter reaches the code under test as a []byte: exact-capacity and roomy slices
 	valids   [][]byte
 	cases    func(b []byte) []Case // nil: this input cannot be expressed for the target (e.g. invalid UTF-8 in a plain-text argument)
-	casesB   func(b []byte) []Case // optional: the (fewer) cases family B is run through in the quick tier
+	casesB   func(b []byte) []Case // optional: the (fewer) cases family B is run through
 	line     func(c Case) string   // optional: the line for the Lean model (differential as in model.go)
 }
 
@@ -152,7 +152,7 @@ func runBlankTarget(r *runner, t blankTarget, all map[string][]int, full bool) i
 		}
 		seen[string(b)] = true
 		cs := t.cases
-		if fam[0] == 'B' && !full && t.casesB != nil {
+		if fam[0] == 'B' && t.casesB != nil {
 			cs = t.casesB
 		}
 		for _, c := range cs(b) {
@@ -183,13 +183,14 @@ func runBlankTarget(r *runner, t blankTarget, all map[string][]int, full bool) i
 	// (1) the non-ASCII kinds at sparse lengths for values that are handed on to strconv / time / mapstructure,
 	// (2) roomy slices next to the exact ones for the core kinds only, (3) family B in full for `space` and
 	// `mix-ascii` and, for the other kinds, around the thresholds against the tails `a` and `aaaa`,
-	// (4) family C for space / LF / CRLF / mix-ascii. The thorough tier and --search run everything.
+	// (4) family C for space / LF / CRLF / mix-ascii. The thorough tier and --search run every kind in every family
+	// (family A also with 64 spare bytes behind the input).
 	capsA, capsCore, capsBC := []string{""}, []string{""}, []string{""}
 	if t.bytesArg {
 		capsA, capsCore, capsBC = []string{"exact"}, []string{"exact", ""}, []string{"exact"}
 		if full {
 			capsA = []string{"exact", "", "roomy"}
-			capsCore, capsBC = capsA, capsA
+			capsCore, capsBC = capsA, []string{"exact", ""}
 		}
 	}
 	asciiKind := map[string]bool{"space": true, "tab": true, "cr": true, "lf": true, "crlf": true, "vt": true, "ff": true, "nul": true, "mix-ascii": true}
@@ -229,16 +230,15 @@ func runBlankTarget(r *runner, t blankTarget, all map[string][]int, full bool) i
 		for n := 0; n <= 8; n++ {
 			addTail(bytes.Repeat([]byte("a"), n))
 			for i, v := range t.valids {
-				if (i < 2 || full) && len(v) >= n {
+				if i < 2 && len(v) >= n {
 					addTail(v[:n])
 				}
-				if (i < 1 || full) && len(v) >= n {
+				if i < 1 && len(v) >= n {
 					addTail(v[len(v)-n:])
 				}
 			}
 			if full {
 				addTail([]byte("12345678")[:n])
-				addTail(bytes.Repeat([]byte{0xff}, n))
 			}
 		}
 		near := map[int]bool{} // the neighbourhood of the thresholds
